@@ -54,7 +54,8 @@ def standard(tier, snapshots_cost=1.0):
     """the default mix used by the per-step monitors (C01, C02, C04, C09, C18):
     quick  : U(3,<=5) x s x T{id,rev} x 11 rules; U(3,<=4) x s x option menus;
              U(3,<=4) x withdrawn subsets x 11 rules; x undeclared subsets x mpls(+wigm-prf); U(2,<=8);
-             W(4,2,3,{1,2}) x s in {2,3} x 11 rules (4 candidates: qpq restarts, 2-step transfers)
+             W(4,2,3,{1,2}) x s in {2,3} x 11 rules (4 candidates: qpq restarts, 2-step transfers);
+             bullet piles BU(4) of sizes {0,1,2,3,5,8,13} x s in {1,2,3} (exhausting surpluses, tied tails)
     thorough adds U(3,6..7), weighted W spaces with 4 and 5 candidates, U(4,4) for five fast rules,
              equal-rank profiles Q(3,<=4) for meek/warren"""
     D = configs.DEFAULTS
@@ -65,6 +66,7 @@ def standard(tier, snapshots_cost=1.0):
     yield from withdrawn_family(3, spaces.U(3, 0, 4), D)
     yield from undeclared_family(3, spaces.U(3, 0, 4), [{'rule': 'mpls'}, {'rule': 'wigm-prf'}])
     yield from seats_ties(4, spaces.W(4, 2, 3, (1, 2)), seats=(2, 3), ties='id', cfgs=D)
+    yield from seats_ties(4, spaces.BU(4), seats=(1, 2, 3), ties='id', cfgs=D)
     yield from seats_ties(3, spaces.U(3, 5, 5), cfgs=D)
     if tier == 'thorough':
         mw = [{'rule': 'meek'}, {'rule': 'warren'}] + configs.meek_menu(full=False)
